@@ -28,13 +28,15 @@ bool ops_map(Ctx& c, const json& s, int idx, bool& handled) {
 		// image: tile i carries mapping index i % 2048, cell type i % 32 and lavaPossible = parity of i / 7
 		std::vector<unsigned char> img; auto le32 = [&](uint32_t v) { for (int i = 0; i < 4; ++i) img.push_back((unsigned char)(v >> (8 * i))); };
 		le32(0x1011); le32(0); le32(lg); le32(h); le32(0); for (std::size_t i = 0; i < n; ++i) le32((uint32_t)(i % 32) | ((uint32_t)(i % 2048) << 5) | ((uint32_t)((i / 7) & 1) << 28));
-		for (int i = 0; i < 16; ++i) img.push_back(0); for (char ch : std::string("TILE SET\x1a", 9)) img.push_back((unsigned char)ch); img.push_back(0); le32(0); le32(0); le32(0x1011); le32(0x1011); le32(0); le32(0);
+		for (int i = 0; i < 16; ++i) img.push_back(0); for (char ch : std::string("TILE SET\x1a", 9)) img.push_back((unsigned char)ch); img.push_back(0); le32(2048); for (uint32_t k = 0; k < 2048; ++k) { auto le16 = [&](uint32_t v) { img.push_back((unsigned char)v); img.push_back((unsigned char)(v >> 8)); }; le16((k * 7 + 3) % 65536); le16((k * 13 + 1) % 65536); le16(0); le16(0); }
+		le32(0); le32(0x1011); le32(0x1011); le32(0); le32(0);
 		Map m; if (throws([&] { m = map_from(img); })) { Proto::mismatch(site, "refused-should-accept", where("")); return false; }
 		if (m.WidthInTiles() != w || m.HeightInTiles() != h || m.TileCount() != n) { Proto::mismatch(site, "dimensions", where("")); return false; }
 		for (auto& pr : s["probes"]) { std::size_t x = pr["x"], y = pr["y"], idx = pr["idx"];
 			if (m.GetTileMappingIndex(x, y) != idx % 2048) { Proto::mismatch(site, "addressing", where("(" + std::to_string(x) + "," + std::to_string(y) + ") reads mapping " + std::to_string(m.GetTileMappingIndex(x, y)) + " want tile " + std::to_string(idx))); return false; }
 			if ((std::size_t)(int)m.GetCellType(x, y) != idx % 32) { Proto::mismatch(site, "cell-type-read", where("(" + std::to_string(x) + "," + std::to_string(y) + ") reads " + std::to_string((int)m.GetCellType(x, y)) + " want " + std::to_string(idx % 32))); return false; }
-			if (m.GetLavaPossible(x, y) != (((idx / 7) & 1) != 0)) { Proto::mismatch(site, "lava-read", where("")); return false; } }
+			if (m.GetLavaPossible(x, y) != (((idx / 7) & 1) != 0)) { Proto::mismatch(site, "lava-read", where("")); return false; }
+			if (m.GetTilesetIndex(x, y) != pr["ts"].get<std::size_t>() || m.GetImageIndex(x, y) != pr["img"].get<std::size_t>()) { Proto::mismatch(site, "mapping-entry", where("(" + std::to_string(x) + "," + std::to_string(y) + ") reports tileset " + std::to_string(m.GetTilesetIndex(x, y)) + " image " + std::to_string(m.GetImageIndex(x, y)) + ", the mapping entry of tile " + std::to_string(idx) + " says " + pr["ts"].dump() + " / " + pr["img"].dump())); return false; } }
 		// monitor of the specification's Bijective invariant on the implementation: visiting every coordinate through a
 		// setter must mark every tile exactly once
 		if (n <= (1u << 18)) {
